@@ -26,13 +26,23 @@ TARGETS = [
     ('datafusion/common/src/hash_utils.rs', ['C12'], r'^\s*buffer\.clear\(\);\s*$', 'delete'),
     ('datafusion/physical-plan/src/joins/hash_join/stream.rs', ['C12'], r'^\s*self\.hashes_buffer\.clear\(\);\s*$', 'delete'),
     ('datafusion/physical-plan/src/aggregates/group_values/row.rs', ['C12'], r'^\s*batch_hashes\.clear\(\);\s*$', 'delete'),
+    # round 3 rules ('subst' entries carry (pattern, replacement) applied to the matching line)
+    ('datafusion/core/src/execution/context/mod.rs', ['C49'], r'^\s*self\.(de)?register_table\(.*\)\?;\s*$', 'delete'),
+    ('datafusion/core/src/execution/context/mod.rs', ['C49'], r'^\s*\(.*\) => exec_err!\(".*(already exists|doesn.t exist)', 'subst', (r'exec_err!\(.*$', 'self.return_empty_dataframe(),')),
+    ('datafusion/physical-expr/src/intervals/cp_solver.rs', ['C23'], r'^\s*\.map\(\|t\| t\.map\(reverse_tuple\)\),\s*$', 'subst', (r'^.*$', ',')),
+    ('datafusion/physical-plan/src/joins/nested_loop_join.rs', ['C05'], r'^\s*self\.state = NLJState::EmitGlobalRightUnmatched;\s*$', 'subst', ('EmitGlobalRightUnmatched', 'Done')),
+    ('benchmarks/src/sql_benchmark.rs', ['C46'], r'^\s*let value = lookup_replacement_value\(key, replacement_map, &get_env\)\.or\(default\);\s*$', 'subst',
+     (r'lookup_replacement_value\(key, replacement_map, &get_env\)\.or\(default\)', 'default.or(lookup_replacement_value(key, replacement_map, &get_env))')),
+    ('datafusion/expr/src/predicate_bounds.rs', ['C30'], r'^\s*\| Expr::SimilarTo\(_\) => self\.is_null_if_any_child_null\(expr\),\s*$', 'subst', (r'\| Expr::SimilarTo\(_\)', '| Expr::SimilarTo(_) | Expr::TryCast(_)')),
 ]
 OPS = ['Eq', 'NotEq', 'Lt', 'LtEq', 'Gt', 'GtEq']
 
 
 def mutants(repo, rng):
     out = []
-    for rel, checks, rx, op in TARGETS:
+    for ent in TARGETS:
+        rel, checks, rx, op = ent[:4]
+        sub = ent[4] if len(ent) > 4 else None
         p = os.path.join(repo, rel)
         if not os.path.exists(p) or op == 'skip':
             continue
@@ -46,11 +56,15 @@ def mutants(repo, rng):
                 new = None
             elif op == 'flipbool':
                 new = l.replace('=> true', '=> @@').replace('=> false', '=> true').replace('=> @@', '=> false')
+            elif op == 'subst':
+                new = re.sub(sub[0], lambda _m: sub[1], l)
+                if new == l:
+                    continue
             elif op == 'swapop':
                 m = re.search(r'Some\(Operator::(\w+)\)', l)
                 alt = [o for o in OPS if o != m.group(1)]
                 new = l.replace('Some(Operator::%s)' % m.group(1), 'Some(Operator::%s)' % rng.choice(alt))
-            out.append({'file': rel, 'line': i + 1, 'op': op, 'old': l.strip(), 'new': (new or '').strip(), 'checks': checks})
+            out.append({'file': rel, 'line': i + 1, 'op': op, 'old': l.strip(), 'new': (new or '').strip(), 'rawnew': new, 'checks': checks})
     return out
 
 
@@ -81,6 +95,8 @@ def main():
             lines = orig.split('\n')
             if m['op'] == 'delete':
                 lines[m['line'] - 1] = ''
+            elif m['op'] == 'subst':
+                lines[m['line'] - 1] = m['rawnew']
             else:
                 ind = re.match(r'\s*', lines[m['line'] - 1]).group(0)
                 lines[m['line'] - 1] = ind + m['new']
